@@ -550,7 +550,13 @@ class World:
             log.append(f"renamed->{d['rename']}")
         if d.get("drop_where") == "1":
             where_txt = ""
-        body = transform_body(body, d, log, pre_stmt)
+        try:
+            body = transform_body(body, d, log, pre_stmt)
+        except ExtractError as e:
+            # a body-level dialect rule lost its anchor (e.g. D7: the indexing expression it rewrites is gone): outside
+            # the dialect for THIS function only — emitted as external_body, undecided for its own tags
+            self.external.add(fid)
+            self.auto_external[fid] = str(e)
         if "subst" in d:
             # D13: explicit token substitutions listed in the directive (e.g. an associated type of a dropped
             # trait impl: `Self::Item=>usize`)
@@ -558,6 +564,8 @@ class World:
                 a, b = pair.split("=>")
                 k = head.count(a) + body.count(a)
                 if k == 0:
+                    if fid in self.external:
+                        continue
                     raise ExtractError(f"{fid}: D13 substitution source {a!r} not found (anchor lost)")
                 head = head.replace(a, b)
                 body = body.replace(a, b)
